@@ -1,23 +1,46 @@
 """
 C05 — blocks separated by a blank line are parsed independently of each other.
 
-Exploration (metamorphic, on the implementation alone): AST with line numbers of Document(A),
-Document(B) and Document(A + blank line + B) for pairs meeting the side conditions.
+Theorems (lean/Mistletoe/Props/C05.lean; lemmas in Proofs/Locality.lean, 2770 lines) over the block-parser model:
+  * `C05_suffix_local` / `C05_suffix_shift` (full strength): whatever stands before a block boundary, the dispatch loop
+    started at that boundary computes exactly what tokenize_block computes on the remaining lines alone, with every
+    line number at every depth shifted by the number of preceding lines - no reader (BlockCode's trailing-blank
+    back-off, Footnote's hand-back, every backstep, List.read's reset to its anchor) ever looks at or steps back into
+    an earlier line; needs only that lines are complete (a counterexample with an embedded newline is kernel-checked
+    and reproduced on the real code: outside Document(str));
+  * `C05_prefix_partial`: for A whose top-level blocks contain no list and whose last block is closed (paragraph,
+    setext/ATX heading, thematic break, quote, table), parsing A followed by an empty line and ANY further lines
+    reaches the boundary with A's entries and A's state;
+  * `C05_blank_line_independent_partial`: under those hypotheses and A defining no references,
+    blockPhase(A ++ ["\n"] ++ B) = A's entries ++ B's entries shifted by |A|+1, loose.
+  The restriction "no top-level list in A" is recorded as partial: List.read re-reads an item from its anchor after a
+  marker mismatch; the full statement is explored on the implementation.
+Units: `scan.*` and `block.buffer` (real tokenize_block against the model) on A, B and A + blank line + B of this
+run's pairs.
+Exploration (metamorphic, on the implementation): AST with line numbers of Document(A), Document(B) and
+Document(A + blank line + B) for pairs meeting the side conditions.
 """
+import block_units
 import common
 import export
 import gen_docs
 import impl
+import scan_units
 
 ID = 'C05'
-LEVEL = 'exploration'
+EXTRA_MODULES = ['Mistletoe.Proofs.Locality']
 RULE = ('pairs (A, B) of spec examples, mutations, splices, random documents and strings such that A ends in a closed block '
         '(paragraph, heading, thematic break, block quote, table) and neither defines link references; both as str. '
         'Distinct by pair; non-trivial when B has a container or a multi-line block')
 TRUSTED = ['the exporter (harness/export.py) as canonical AST observation incl. line numbers']
 ASSUMPTIONS = []
-PARTIAL = ['interim level: metamorphic exploration. The Lean locality theorem over the block-parser model and the '
-           'no-stale-scratch refinement are the planned upgrade']
+PARTIAL = ['prefix half proved for A without a top-level list (List.read re-reads an item from its anchor after a marker '
+           'mismatch; the equal-final-state form of the full statement is false for exotic token orders, see DESIGN.md); the '
+           'full statement (lists anywhere in A) is explored on the implementation',
+           'the theorems are about the block phase; class-level scratch (Heading.level, CodeFence._open_info, '
+           'HtmlBlock._end_cond) is modelled as recomputed from the line start() was called on, and that modelling is what the '
+           'block.buffer correspondence on concatenated documents checks; the token constructors and the inline phase are a '
+           'function of the buffer and the definitions (none here)']
 
 CLOSED = ('Paragraph', 'Heading', 'SetextHeading', 'ThematicBreak', 'Quote', 'Table')
 
@@ -85,7 +108,15 @@ def _cases(ctx):
 
 
 def units(ctx):
-    pass
+    scan_units.run(ctx)
+    cases = _cases(ctx)
+    rng = ctx.rng('units')
+    rng.shuffle(cases)
+    texts = []
+    for c in cases[:ctx.budget(900, 9000)]:
+        A, B = norm(c['A']), c['B']
+        texts += [A, B, A + '\n' + B]
+    block_units.run(ctx, texts, sets=block_units.TOKEN_SETS[:2])
 
 
 def explore(ctx, seeds):
